@@ -1,6 +1,681 @@
-/- C20 — property theorems.  Stub. -/
+/-
+C20 — property theorems.  Every guard of the catalogue rejects exactly the arguments that violate the
+documented precondition — on both sides of every boundary.
+-/
 import CBV.Model.C20
+import CBV.Lemmas.C20
+import Mathlib.Tactic.Ring
+import Mathlib.Tactic.Linarith
+import Mathlib.Algebra.Order.Field.Rat
 
 namespace CBV.C20
+
+set_option linter.unusedSimpArgs false
+
+/-! ### index guards: the documented range, enforced at both ends -/
+
+/-- `Face.add_edge(corner, …)` is rejected iff the corner is not one of 0…3 (for every integer) -/
+theorem T_C20_face_add_edge (tol : Rat) (c : Int) :
+    (run tol (.faceAddEdge c)).isReject = true ↔ ¬ (0 ≤ c ∧ c ≤ 3) := by
+  simp only [run, checks_isReject, faceCornerBad, List.any_cons, List.any_nil, Bool.or_false,
+    Bool.or_eq_true, decide_eq_true_eq]
+  omega
+
+theorem T_C20_face_project_edge (tol : Rat) (c : Int) :
+    (run tol (.faceProjectEdge c)).isReject = true ↔ ¬ (0 ≤ c ∧ c ≤ 3) := by
+  simp only [run, checks_isReject, faceCornerBad, List.any_cons, List.any_nil, Bool.or_false,
+    Bool.or_eq_true, decide_eq_true_eq]
+  omega
+
+theorem T_C20_op_add_side_edge (tol : Rat) (c : Int) :
+    (run tol (.opAddSideEdge c)).isReject = true ↔ ¬ (0 ≤ c ∧ c ≤ 3) := by
+  simp only [run, checks_isReject, List.any_cons, List.any_nil, Bool.or_false,
+    Bool.or_eq_true, decide_eq_true_eq]
+  omega
+
+theorem T_C20_op_project_corner (tol : Rat) (c : Int) :
+    (run tol (.opProjectCorner c)).isReject = true ↔ ¬ (0 ≤ c ∧ c ≤ 7) := by
+  simp only [run, checks_isReject, List.any_cons, List.any_nil, Bool.or_false,
+    Bool.or_eq_true, decide_eq_true_eq]
+  omega
+
+theorem T_C20_op_chop (tol : Rat) (axis : Int) :
+    ((run tol (.opChop axis)).isReject = true ↔ ¬ (0 ≤ axis ∧ axis ≤ 2)) ∧
+    ((run tol (.opUnchop axis)).isReject = true ↔ ¬ (0 ≤ axis ∧ axis ≤ 2)) := by
+  simp only [run, checks_isReject, List.any_cons, List.any_nil, Bool.or_false,
+    Bool.or_eq_true, Bool.not_eq_true', beq_iff_eq, Bool.or_eq_false_iff, beq_eq_false_iff_ne]
+  omega
+
+
+/-! ### counts: one below, at, one above the documented number -/
+
+/-- `Face(points)`: rejected iff the array is not 4 × 3 -/
+theorem T_C20_face_shape (tol : Rat) (n m : Nat) :
+    (run tol (.faceShape n m)).isReject = true ↔ ¬ (n = 4 ∧ m = 3) := by
+  simp only [run, checks_isReject, List.any_cons, List.any_nil, Bool.or_false, Bool.or_eq_true,
+    Bool.not_eq_true', beq_iff_eq, Bool.and_eq_false_iff, beq_eq_false_iff_ne]
+  omega
+
+theorem T_C20_face_edges (tol : Rat) (k : Nat) :
+    (run tol (.faceEdges k)).isReject = true ↔ ¬ (k = 4) := by
+  simp [run, checks_isReject]
+
+theorem T_C20_point_shape (tol : Rat) (dims : List Nat) :
+    (run tol (.pointShape dims)).isReject = true ↔ ¬ (dims = [3]) := by
+  simp [run, checks_isReject]
+
+/-- `Array(points)`: rejected iff the points are not 3-dimensional or there are fewer than two -/
+theorem T_C20_array_shape (tol : Rat) (n m : Nat) :
+    (run tol (.arrayShape n m)).isReject = true ↔ ¬ (m = 3 ∧ 2 ≤ n) := by
+  simp only [run, checks_isReject, List.any_cons, List.any_nil, Bool.or_false, Bool.or_eq_true,
+    bne_iff_ne, beq_iff_eq, decide_eq_true_eq]
+  omega
+
+theorem T_C20_side_vertices (tol : Rat) (k : Nat) :
+    (run tol (.sideVertices k)).isReject = true ↔ ¬ (k = 8) := by
+  simp [run, checks_isReject]
+
+theorem T_C20_from_series (tol : Rat) (k : Nat) :
+    (run tol (.fromSeries k)).isReject = true ↔ ¬ (2 ≤ k) := by
+  simp [run, checks_isReject]
+
+/-- `Project(labels)`: rejected iff there are not one or two labels -/
+theorem T_C20_project_labels (tol : Rat) (n : Nat) :
+    (run tol (.projectLabels n)).isReject = true ↔ ¬ (1 ≤ n ∧ n ≤ 2) := by
+  simp only [run, checks_isReject, List.any_cons, List.any_nil, Bool.or_false,
+    Bool.not_eq_true', Bool.and_eq_false_iff, decide_eq_false_iff_not]
+  omega
+
+theorem T_C20_cylinder_fill (tol : Rat) (n : Nat) :
+    (run tol (.cylinderFill n)).isReject = true ↔ ¬ (n = 8) := by
+  simp [run, checks_isReject]
+
+/-- `LoftedShape`: rejected iff some sketch has another number of faces than the first -/
+theorem T_C20_lofted_shape (tol : Rat) (n1 n2 : Nat) (mids : List Nat) :
+    (run tol (.loftedShape n1 n2 mids)).isReject = true ↔ ¬ (n1 = n2 ∧ ∀ m ∈ mids, m = n1) := by
+  simp only [run, checks_isReject, List.any_cons, List.any_nil, Bool.or_false, Bool.or_eq_true,
+    bne_iff_ne, List.any_eq_true]
+  constructor
+  · rintro (h | ⟨m, hm, hne⟩) ⟨h1, h2⟩
+    · exact h h1
+    · exact hne (h2 m hm)
+  · intro h
+    by_cases h1 : n1 = n2
+    · right
+      by_contra hc
+      apply h
+      refine ⟨h1, fun m hm => ?_⟩
+      by_contra hne
+      exact hc ⟨m, hm, hne⟩
+    · left; exact h1
+
+/-! ### intervals of rationals -/
+
+/-- the length ratio of a chop must lie in (0, 1] -/
+theorem T_C20_length_ratio (tol r : Rat) :
+    (run tol (.lengthRatio r)).isReject = true ↔ ¬ (0 < r ∧ r ≤ 1) := by
+  simp only [run, checks_isReject, List.any_cons, List.any_nil, Bool.or_false,
+    Bool.not_eq_true', Bool.and_eq_false_iff, decide_eq_false_iff_not]
+  constructor
+  · rintro (h | h) ⟨h1, h2⟩
+    · exact h h1
+    · exact h h2
+  · intro h
+    by_cases h1 : 0 < r
+    · right; intro h2; exact h ⟨h1, h2⟩
+    · left; exact h1
+
+/-- chaining: a length that is not positive is rejected -/
+theorem T_C20_chain (tol : Rat) (kind : Nat) (len : Rat) :
+    (run tol (.chain kind len)).isReject = true ↔ ¬ (0 < len) := by
+  simp only [run, checks_isReject, List.any_cons, List.any_nil, Bool.or_false, Bool.or_eq_true,
+    decide_eq_true_eq]
+  constructor
+  · rintro (h | h) <;> linarith
+  · intro h
+    rcases lt_trichotomy len 0 with h1 | h1 | h1
+    · left; exact h1
+    · right; exact h1
+    · exact absurd h1 h
+
+/-- `ExtrudedRing.contract`: the new inner radius must be positive and below the source's by at least `tol` -/
+theorem T_C20_ring_contract (tol rnew rsrc : Rat) :
+    (run tol (.ringContract rnew rsrc)).isReject = true ↔ ¬ (0 < rnew ∧ rnew + tol ≤ rsrc) := by
+  simp only [run, checks_isReject, List.any_cons, List.any_nil, Bool.or_false, Bool.or_eq_true,
+    decide_eq_true_eq]
+  constructor
+  · rintro (h | h) ⟨h1, h2⟩ <;> linarith
+  · intro h
+    by_cases h1 : rnew ≤ 0
+    · left; exact h1
+    · right
+      by_contra hc
+      apply h
+      constructor <;> linarith
+
+/-- with a positive tolerance an accepted contraction is to a strictly smaller radius, and a radius that is
+    not below the source's (equal included) is rejected -/
+theorem T_C20_ring_contract_strict (tol rnew rsrc : Rat) (htol : 0 < tol) :
+    ((run tol (.ringContract rnew rsrc)).isReject = false → rnew < rsrc) ∧
+    (rsrc ≤ rnew → (run tol (.ringContract rnew rsrc)).isReject = true) := by
+  constructor
+  · intro h
+    have := (T_C20_ring_contract tol rnew rsrc).not.mp (by simp [h])
+    have := not_not.mp this
+    linarith [this.2]
+  · intro h
+    apply (T_C20_ring_contract tol rnew rsrc).mpr
+    intro ⟨_, h2⟩
+    linarith
+
+
+/-- non-vacuity: the library's tolerance is positive; 0.3 is an accepted contraction of a ring of inner radius 0.5 -/
+example : (0 : Rat) < 1 / 10000000 ∧ (run (1 / 10000000) (.ringContract (3 / 10) (1 / 2))).isReject = false := by
+  decide +kernel
+
+/-! ### symmetric conditions: coplanar / perpendicular within the tolerance, on both sides -/
+
+/-- `Face(..., check_coplanar=True)`: rejected iff the triple product leaves [-tol, tol] on either side -/
+theorem T_C20_face_coplanar (tol : Rat) (p0 p1 p2 p3 : V3) :
+    (run tol (.faceCoplanar p0 p1 p2 p3)).isReject = true ↔
+      ¬ (-tol ≤ triple p0 p1 p2 p3 ∧ triple p0 p1 p2 p3 ≤ tol) := by
+  simp only [run, checks_isReject, List.any_cons, List.any_nil, Bool.or_false, decide_eq_true_eq]
+  exact absR_gt_iff _ _
+
+/-- `Cylinder` / `SemiCylinder`: rejected iff the axis or the radius vector vanishes or their dot product
+    leaves [-tol, tol] **on either side** -/
+theorem T_C20_cylinder_perp (tol : Rat) (a1 a2 rp : V3) :
+    (run tol (.cylinder a1 a2 rp)).isReject = true ↔
+      ¬ (a2 - a1 ≠ V3.zero ∧ rp - a1 ≠ V3.zero ∧
+          -tol ≤ V3.dot (a2 - a1) (rp - a1) ∧ V3.dot (a2 - a1) (rp - a1) ≤ tol) := by
+  simp only [run, checks_isReject, List.any_cons, List.any_nil, Bool.or_false, Bool.or_eq_true,
+    decide_eq_true_eq, isZero_iff, absR_gt_iff]
+  tauto
+
+theorem T_C20_frustum_perp (tol : Rat) (a1 a2 rp : V3) :
+    (run tol (.frustum a1 a2 rp)).isReject = true ↔
+      ¬ (a2 - a1 ≠ V3.zero ∧ rp - a1 ≠ V3.zero ∧
+          -tol ≤ V3.dot (a2 - a1) (rp - a1) ∧ V3.dot (a2 - a1) (rp - a1) ≤ tol) := by
+  simp only [run, checks_isReject, List.any_cons, List.any_nil, Bool.or_false, Bool.or_eq_true,
+    decide_eq_true_eq, isZero_iff, absR_gt_iff]
+  tauto
+
+/-- the symmetry itself: two radius points whose deviations from perpendicularity are opposite get the same verdict
+    from `Cylinder` and from `Frustum` -/
+theorem T_C20_perp_symmetric (tol : Rat) (a1 a2 rp rp' : V3)
+    (hdot : V3.dot (a2 - a1) (rp' - a1) = -V3.dot (a2 - a1) (rp - a1))
+    (hzero : rp' - a1 = V3.zero ↔ rp - a1 = V3.zero) :
+    (run tol (.cylinder a1 a2 rp')).isReject = (run tol (.cylinder a1 a2 rp)).isReject ∧
+    (run tol (.frustum a1 a2 rp')).isReject = (run tol (.frustum a1 a2 rp)).isReject := by
+  constructor <;> rw [Bool.eq_iff_iff]
+  · rw [T_C20_cylinder_perp, T_C20_cylinder_perp, hdot, not_iff_not]
+    constructor <;> rintro ⟨h1, h2, h3, h4⟩
+    · exact ⟨h1, fun h => h2 (hzero.mpr h), by linarith, by linarith⟩
+    · exact ⟨h1, fun h => h2 (hzero.mp h), by linarith, by linarith⟩
+  · rw [T_C20_frustum_perp, T_C20_frustum_perp, hdot, not_iff_not]
+    constructor <;> rintro ⟨h1, h2, h3, h4⟩
+    · exact ⟨h1, fun h => h2 (hzero.mpr h), by linarith, by linarith⟩
+    · exact ⟨h1, fun h => h2 (hzero.mp h), by linarith, by linarith⟩
+
+example : V3.dot ((⟨0, 0, 1⟩ : V3) - ⟨0, 0, 0⟩) ((⟨1, 0, -1 / 2⟩ : V3) - ⟨0, 0, 0⟩)
+      = -V3.dot ((⟨0, 0, 1⟩ : V3) - ⟨0, 0, 0⟩) ((⟨1, 0, 1 / 2⟩ : V3) - ⟨0, 0, 0⟩) ∧
+    (((⟨1, 0, -1 / 2⟩ : V3) - ⟨0, 0, 0⟩ = V3.zero) ↔ ((⟨1, 0, 1 / 2⟩ : V3) - ⟨0, 0, 0⟩ = V3.zero)) := by
+  decide +kernel
+
+/-- the guard as it was before the repair (`diff > TOL` without `abs`) -/
+def cylinderOld (tol : Rat) (a1 a2 rp : V3) : Out :=
+  checks [(decide (V3.dot (a2 - a1) (rp - a1) > tol), "CylinderCreationError")]
+
+/-- … does *not* enforce the symmetric condition: a radius point leaning by −1/2 is accepted -/
+theorem T_C20_onesided_counterexample :
+    ¬ ∀ a1 a2 rp : V3, (cylinderOld (1 / 10000000) a1 a2 rp).isReject = true ↔
+      ¬ (-(1 / 10000000) ≤ V3.dot (a2 - a1) (rp - a1) ∧ V3.dot (a2 - a1) (rp - a1) ≤ 1 / 10000000) := by
+  intro h
+  have := (h ⟨0, 0, 0⟩ ⟨0, 0, 1⟩ ⟨1, 0, -1 / 2⟩).mpr (by decide +kernel)
+  revert this
+  decide +kernel
+
+/-! ### the ring: radii and perpendicularity.  The model compares squares; the code compares norms. -/
+
+/-- the coded comparison `outer_radius - inner_radius < TOL` of two norms is the squared comparison of the model,
+    for every non-negative root `s` of `|v|²` -/
+theorem T_C20_radii_squared (tol rin s : Rat) (v : V3) (hs : 0 ≤ s) (hss : s * s = V3.norm2 v)
+    (hr : 0 ≤ rin) (htol : 0 ≤ tol) :
+    (s - rin < tol ↔ V3.norm2 v < (rin + tol) * (rin + tol)) ∧
+    (rin + tol ≤ s ↔ (rin + tol) * (rin + tol) ≤ V3.norm2 v) := by
+  rw [← hss]
+  constructor
+  · rw [← lt_iff_sq_lt hs (by linarith)]
+    constructor <;> intro h <;> linarith
+  · exact le_iff_sq_le (by linarith) hs
+
+example : (0 : Rat) ≤ 5 ∧ (5 : Rat) * 5 = V3.norm2 ⟨3, 4, 0⟩ ∧ (0 : Rat) ≤ 1 / 2 ∧ (0 : Rat) ≤ 1 / 10000000 := by
+  decide +kernel
+
+/-- the coded comparison `abs(dot(normal / |normal|, v)) > TOL` and the documented two-sided condition, in squared
+    form, for every positive root `s` of `|n|²` -/
+theorem T_C20_lean_squared (tol s : Rat) (n v : V3) (hs : 0 < s) (hss : s * s = V3.norm2 n) (htol : 0 ≤ tol) :
+    (absR (V3.dot n v / s) > tol ↔ V3.dot n v * V3.dot n v > tol * tol * V3.norm2 n) ∧
+    ((-tol ≤ V3.dot n v / s ∧ V3.dot n v / s ≤ tol) ↔ V3.dot n v * V3.dot n v ≤ tol * tol * V3.norm2 n) := by
+  have key : absR (V3.dot n v / s) > tol ↔ V3.dot n v * V3.dot n v > tol * tol * V3.norm2 n := by
+    rw [← hss]
+    have hne : s ≠ 0 := ne_of_gt hs
+    have e : V3.dot n v / s * s = V3.dot n v := div_mul_cancel₀ _ hne
+    have h1 : V3.dot n v * V3.dot n v = (absR (V3.dot n v / s) * s) * (absR (V3.dot n v / s) * s) := by
+      have : (absR (V3.dot n v / s) * s) * (absR (V3.dot n v / s) * s)
+          = (absR (V3.dot n v / s) * absR (V3.dot n v / s)) * (s * s) := by ring
+      rw [this, absR_mul_self]
+      have : V3.dot n v / s * (V3.dot n v / s) * (s * s) = (V3.dot n v / s * s) * (V3.dot n v / s * s) := by ring
+      rw [this, e]
+    rw [h1]
+    have ha := absR_nonneg (V3.dot n v / s)
+    have : tol * tol * (s * s) = (tol * s) * (tol * s) := by ring
+    rw [this, gt_iff_lt, gt_iff_lt, ← lt_iff_sq_lt (mul_nonneg htol hs.le) (mul_nonneg ha hs.le)]
+    constructor
+    · intro h; exact mul_lt_mul_of_pos_right h hs
+    · intro h; exact lt_of_mul_lt_mul_right h hs.le
+  refine ⟨key, ?_⟩
+  have := (absR_gt_iff (V3.dot n v / s) tol)
+  constructor
+  · intro h
+    by_contra hc
+    exact (this.mp (key.mpr (not_le.mp hc))) h
+  · intro h
+    by_contra hc
+    have := key.mp (this.mpr hc)
+    linarith
+
+example : (0 : Rat) < 7 ∧ (7 : Rat) * 7 = V3.norm2 ⟨2, 3, 6⟩ := by decide +kernel
+
+/-- `Annulus` / `ExtrudedRing`: rejected iff a vector vanishes, there are fewer than two segments, the inner radius
+    is negative or not below the outer one by `tol`, or the radius vector leans out of the plane on either side -/
+theorem T_C20_annulus (tol : Rat) (c p n : V3) (rin : Rat) (nseg : Int) :
+    (run tol (.annulus c p n rin nseg)).isReject = true ↔
+      ¬ (n ≠ V3.zero ∧ p - c ≠ V3.zero ∧ 2 ≤ nseg ∧ 0 ≤ rin ∧
+          (rin + tol) * (rin + tol) ≤ V3.norm2 (p - c) ∧
+          V3.dot n (p - c) * V3.dot n (p - c) ≤ tol * tol * V3.norm2 n) := by
+  simp only [run, checks_isReject, List.any_cons, List.any_nil, Bool.or_false, Bool.or_eq_true,
+    decide_eq_true_eq, isZero_iff, beq_iff_eq]
+  constructor
+  · rintro (h | h | h | h | h | h | h) ⟨h1, h2, h3, h4, h5, h6⟩
+    · linarith
+    · omega
+    · rcases h with h | h
+      · exact h1 h
+      · exact h2 h
+    · omega
+    · omega
+    · linarith
+    · linarith
+  · intro h
+    by_contra hc
+    simp only [not_or, not_lt] at hc
+    obtain ⟨c1, c2, c3, c4, c5, c6, c7⟩ := hc
+    apply h
+    refine ⟨c3.1, c3.2, by omega, c1, c6, c7⟩
+
+/-- consequences in the documented, unsquared form: an accepted ring has its inner radius strictly below the
+    outer one, and an inner radius that is not below the outer one (equal included) is rejected -/
+theorem T_C20_annulus_radii (tol : Rat) (c p n : V3) (rin : Rat) (nseg : Int) (s : Rat)
+    (htol : 0 < tol) (hs : 0 ≤ s) (hss : s * s = V3.norm2 (p - c)) :
+    ((run tol (.annulus c p n rin nseg)).isReject = false → 0 ≤ rin ∧ rin < s) ∧
+    (s ≤ rin → (run tol (.annulus c p n rin nseg)).isReject = true) := by
+  constructor
+  · intro h
+    have h' := not_not.mp ((T_C20_annulus tol c p n rin nseg).not.mp (by simp [h]))
+    obtain ⟨_, _, _, h4, h5, _⟩ := h'
+    have := ((T_C20_radii_squared tol rin s (p - c) hs hss h4 htol.le).2).mpr h5
+    exact ⟨h4, by linarith⟩
+  · intro h
+    apply (T_C20_annulus tol c p n rin nseg).mpr
+    rintro ⟨_, _, _, h4, h5, _⟩
+    have := ((T_C20_radii_squared tol rin s (p - c) hs hss h4 htol.le).2).mpr h5
+    linarith
+
+/-- non-vacuity: a ring with outer radius 5 (root witness of |(3,4,0)|² = 25), inner radius 2, is accepted -/
+example : (0 : Rat) < 1 / 10000000 ∧ (0 : Rat) ≤ 5 ∧ (5 : Rat) * 5 = V3.norm2 ((⟨3, 4, 0⟩ : V3) - ⟨0, 0, 0⟩) ∧
+    (run (1 / 10000000) (.annulus ⟨0, 0, 0⟩ ⟨3, 4, 0⟩ ⟨0, 0, 2⟩ 2 8)).isReject = false := by decide +kernel
+
+/-! ### lists of corners, side names -/
+
+/-- `Face.remove_edges(corners)`: rejected iff some corner is not one of 0…3 -/
+theorem T_C20_face_remove_edges (tol : Rat) (cs : List Int) :
+    (run tol (.faceRemoveEdges cs)).isReject = true ↔ ¬ (∀ c ∈ cs, 0 ≤ c ∧ c ≤ 3) := by
+  simp only [run, removeEdgesRun_isReject]
+  constructor
+  · rintro ⟨c, hc, hn⟩ h; exact hn (h c hc)
+  · intro h
+    by_contra hc
+    apply h
+    intro c hmem
+    by_contra hn
+    exact hc ⟨c, hmem, hn⟩
+
+/-- `set_patch` / `project_side`: with the generated `SIDES_MAP`, exactly the six side names of the hexahedron
+    are accepted (`decide` on the table regenerated from the source) -/
+theorem T_C20_sides_table :
+    ∀ s ∈ sideNames, (s == "bottom" || s == "top" || CBV.Gen.sidesMap.contains s) = true := by decide
+
+theorem T_C20_op_side (tol : Rat) (side : String) :
+    (run tol (.opSide side)).isReject = true ↔ ¬ (side ∈ sideNames) := by
+  simp only [run, checks_isReject, List.any_cons, List.any_nil, Bool.or_false, Bool.not_eq_true',
+    Bool.or_eq_false_iff, beq_eq_false_iff_ne, CBV.Gen.sidesMap, sideNames, List.contains_eq_mem,
+    List.mem_cons, List.not_mem_nil, or_false, decide_eq_false_iff_not]
+  tauto
+
+/-! ### pairs of corners: exactly the 12 edges of blockMesh's hexahedron (tables regenerated from the source) -/
+
+/-- on the generated tables: `Frame` holds a beam, `edge_map` holds a location and `valid_pairs` holds the pair
+    exactly for the corner pairs that differ in one local coordinate -/
+theorem T_C20_pair_tables :
+    ∀ a ∈ List.range 8, ∀ b ∈ List.range 8,
+      frameHas a b = isEdge a b ∧ edgeMapHas a b = isEdge a b ∧ validPair (a : Int) (b : Int) = isEdge a b := by
+  decide
+
+/-- `Operation.project_edge`: rejected iff an index is not a corner (0…7) or the corners are not joined by an edge -/
+theorem T_C20_op_project_edge (tol : Rat) (c1 c2 : Int) :
+    (run tol (.opProjectEdge c1 c2)).isReject = true ↔
+      ¬ (0 ≤ c1 ∧ c1 ≤ 7 ∧ 0 ≤ c2 ∧ c2 ≤ 7 ∧ isEdge c1.toNat c2.toNat = true) := by
+  simp only [run, checks_isReject, List.any_cons, List.any_nil, Bool.or_false, Bool.or_eq_true,
+    Bool.not_eq_true', Bool.and_eq_false_iff, decide_eq_false_iff_not]
+  by_cases hr : 0 ≤ c1 ∧ c1 ≤ 7 ∧ 0 ≤ c2 ∧ c2 ≤ 7
+  · obtain ⟨h1, h2, h3, h4⟩ := hr
+    have ha := toNat_mem_range8 c1 h1 h2
+    have hb := toNat_mem_range8 c2 h3 h4
+    obtain ⟨t1, t2, _⟩ := T_C20_pair_tables _ ha.1 _ hb.1
+    rw [t1, t2]
+    constructor
+    · rintro (h | h | h) ⟨_, _, _, _, he⟩
+      · omega
+      · rw [he] at h; exact Bool.noConfusion h
+      · rw [he] at h; exact Bool.noConfusion h
+    · intro h
+      right; left
+      cases he : isEdge c1.toNat c2.toNat
+      · rfl
+      · exact absurd ⟨h1, h2, h3, h4, he⟩ h
+  · constructor
+    · intro _ h; exact hr ⟨h.1, h.2.1, h.2.2.1, h.2.2.2.1⟩
+    · intro _; left; omega
+
+/-- `Block.add_edge` -/
+theorem T_C20_block_add_edge (tol : Rat) (c1 c2 : Int) :
+    (run tol (.blockAddEdge c1 c2)).isReject = true ↔
+      ¬ (0 ≤ c1 ∧ c1 ≤ 7 ∧ 0 ≤ c2 ∧ c2 ≤ 7 ∧ isEdge c1.toNat c2.toNat = true) := by
+  simp only [run, checks_isReject, List.any_cons, List.any_nil, Bool.or_false, Bool.or_eq_true,
+    Bool.not_eq_true', Bool.and_eq_false_iff, decide_eq_false_iff_not]
+  by_cases hr : 0 ≤ c1 ∧ c1 ≤ 7 ∧ 0 ≤ c2 ∧ c2 ≤ 7
+  · obtain ⟨h1, h2, h3, h4⟩ := hr
+    have ha := toNat_mem_range8 c1 h1 h2
+    have hb := toNat_mem_range8 c2 h3 h4
+    obtain ⟨t1, _, _⟩ := T_C20_pair_tables _ ha.1 _ hb.1
+    rw [t1]
+    constructor
+    · rintro (h | h) ⟨_, _, _, _, he⟩
+      · omega
+      · rw [he] at h; exact Bool.noConfusion h
+    · intro h
+      right
+      cases he : isEdge c1.toNat c2.toNat
+      · rfl
+      · exact absurd ⟨h1, h2, h3, h4, he⟩ h
+  · constructor
+    · intro _ h; exact hr ⟨h.1, h.2.1, h.2.2.1, h.2.2.2.1⟩
+    · intro _; left; omega
+
+/-- `Frame.add_beam` -/
+theorem T_C20_frame_add_beam (tol : Rat) (c1 c2 : Int) :
+    (run tol (.frameAddBeam c1 c2)).isReject = true ↔
+      ¬ (0 ≤ c1 ∧ c1 ≤ 7 ∧ 0 ≤ c2 ∧ c2 ≤ 7 ∧ isEdge c1.toNat c2.toNat = true) := by
+  simp only [run, checks_isReject, List.any_cons, List.any_nil, Bool.or_false, Bool.not_eq_true']
+  by_cases hr : 0 ≤ c1 ∧ c1 ≤ 7 ∧ 0 ≤ c2 ∧ c2 ≤ 7
+  · obtain ⟨h1, h2, h3, h4⟩ := hr
+    have ha := toNat_mem_range8 c1 h1 h2
+    have hb := toNat_mem_range8 c2 h3 h4
+    obtain ⟨_, _, t3⟩ := T_C20_pair_tables _ ha.1 _ hb.1
+    rw [ha.2, hb.2] at t3
+    rw [t3]
+    constructor
+    · intro h ⟨_, _, _, _, he⟩
+      rw [he] at h; exact Bool.noConfusion h
+    · intro h
+      cases he : isEdge c1.toNat c2.toNat
+      · rfl
+      · exact absurd ⟨h1, h2, h3, h4, he⟩ h
+  · constructor
+    · intro _ h; exact hr ⟨h.1, h.2.1, h.2.2.1, h.2.2.2.1⟩
+    · intro _
+      cases hv : validPair c1 c2
+      · rfl
+      · exact absurd (validPair_range c1 c2 hv) hr
+
+/-! ### slices of a stack -/
+
+/-- `Stack.get_slice(axis, index)` on a non-empty stack: rejected iff the axis is not 0, 1, 2 or the index is not
+    one of 0 … (number of slices along that axis − 1) -/
+theorem T_C20_stack_slice (tol : Rat) (axis idx : Int) (n0 n1 n2 : Nat) (h1 : 0 < n1) (h2 : 0 < n2) :
+    (run tol (.stackSlice axis idx n0 n1 n2)).isReject = true ↔
+      ¬ (0 ≤ axis ∧ axis ≤ 2 ∧ 0 ≤ idx ∧
+          idx < (if axis = 0 then (n0 : Int) else if axis = 1 then (n1 : Int) else (n2 : Int))) := by
+  simp only [run, checks_isReject, List.any_cons, List.any_nil, Bool.or_false, Bool.or_eq_true,
+    Bool.not_eq_true', Bool.or_eq_false_iff, beq_eq_false_iff_ne, Bool.and_eq_true, beq_iff_eq,
+    decide_eq_true_eq]
+  split_ifs with ha hb <;> omega
+
+example : (0 : Nat) < 3 ∧ (0 : Nat) < 4 := by decide
+
+/-! ### labels of a projected edge -/
+
+/-- `Project.add_label`: the merged label list has no repetitions and holds exactly the labels of both lists
+    (so its length is the number of distinct surfaces); the call is rejected iff that number exceeds 2 -/
+theorem T_C20_project_add_label (tol : Rat) (h new : List Nat) (hh : 0 < h.length) :
+    ((run tol (.projectAddLabel h new)).isReject = true ↔ ¬ ((mergeLabels h new).length ≤ 2)) ∧
+    (∀ x, x ∈ mergeLabels h new ↔ x ∈ h ∨ x ∈ new) ∧ (h.Nodup → (mergeLabels h new).Nodup) := by
+  refine ⟨?_, mergeLabels_mem h new, mergeLabels_nodup h new⟩
+  have := mergeLabels_length h new
+  simp only [run, checks_isReject, List.any_cons, List.any_nil, Bool.or_false,
+    Bool.not_eq_true', Bool.and_eq_false_iff, decide_eq_false_iff_not]
+  omega
+
+example : 0 < ([0, 1] : List Nat).length ∧ ([0, 1] : List Nat).Nodup := by decide
+
+/-! ### the whole catalogue in one statement -/
+
+/-- **Every guard of the catalogue rejects exactly the calls that violate the documented precondition**, for every
+    tolerance and all arguments (`wf`: a stack has at least one shape and one row; a `Project` that receives a label
+    already has one). -/
+theorem T_C20_enforced (tol : Rat) (c : Call) (hwf : wf c = true) :
+    (run tol c).isReject = !(pre tol c) := by
+  rw [Bool.eq_iff_iff]
+  cases c with
+  | faceShape n m => rw [T_C20_face_shape]; exact not_iff_bnot (by simp [pre])
+  | faceEdges k => rw [T_C20_face_edges]; exact not_iff_bnot (by simp [pre])
+  | faceCoplanar p0 p1 p2 p3 => rw [T_C20_face_coplanar]; exact not_iff_bnot (by simp [pre])
+  | faceAddEdge c => rw [T_C20_face_add_edge]; exact not_iff_bnot (by simp [pre, inRange])
+  | faceProjectEdge c => rw [T_C20_face_project_edge]; exact not_iff_bnot (by simp [pre, inRange])
+  | faceRemoveEdges cs => rw [T_C20_face_remove_edges]; exact not_iff_bnot (by simp [pre, inRange])
+  | pointShape dims => rw [T_C20_point_shape]; exact not_iff_bnot (by simp [pre])
+  | arrayShape n m => rw [T_C20_array_shape]; exact not_iff_bnot (by simp [pre])
+  | sideVertices k => rw [T_C20_side_vertices]; exact not_iff_bnot (by simp [pre])
+  | opAddSideEdge c => rw [T_C20_op_add_side_edge]; exact not_iff_bnot (by simp [pre, inRange])
+  | opProjectCorner c => rw [T_C20_op_project_corner]; exact not_iff_bnot (by simp [pre, inRange])
+  | opProjectEdge c1 c2 =>
+      rw [T_C20_op_project_edge]; exact not_iff_bnot (by simp [pre, inRange, cornerPairOk, and_assoc])
+  | opChop axis => rw [(T_C20_op_chop tol axis).1]; exact not_iff_bnot (by simp [pre, inRange])
+  | opUnchop axis => rw [(T_C20_op_chop tol axis).2]; exact not_iff_bnot (by simp [pre, inRange])
+  | opSide side => rw [T_C20_op_side]; exact not_iff_bnot (by simp [pre])
+  | fromSeries k => rw [T_C20_from_series]; exact not_iff_bnot (by simp [pre])
+  | blockAddEdge c1 c2 =>
+      rw [T_C20_block_add_edge]; exact not_iff_bnot (by simp [pre, inRange, cornerPairOk, and_assoc])
+  | frameAddBeam c1 c2 =>
+      rw [T_C20_frame_add_beam]; exact not_iff_bnot (by simp [pre, inRange, cornerPairOk, and_assoc])
+  | projectLabels n => rw [T_C20_project_labels]; exact not_iff_bnot (by simp [pre])
+  | projectAddLabel h new =>
+      have hh : 0 < h.length := by
+        simp only [wf, Bool.and_eq_true, decide_eq_true_eq] at hwf; exact hwf.1
+      rw [(T_C20_project_add_label tol h new hh).1]
+      have := mergeLabels_length h new
+      refine not_iff_bnot ?_
+      simp only [pre, Bool.and_eq_true, decide_eq_true_eq]
+      omega
+  | lengthRatio r => rw [T_C20_length_ratio]; exact not_iff_bnot (by simp [pre])
+  | annulus c p n rin nseg =>
+      rw [T_C20_annulus]; exact not_iff_bnot (by simp [pre, isZero_false_iff, and_assoc])
+  | cylinder a1 a2 rp => rw [T_C20_cylinder_perp]; exact not_iff_bnot (by simp [pre, isZero_false_iff, and_assoc])
+  | frustum a1 a2 rp => rw [T_C20_frustum_perp]; exact not_iff_bnot (by simp [pre, isZero_false_iff, and_assoc])
+  | chain kind len => rw [T_C20_chain]; exact not_iff_bnot (by simp [pre])
+  | ringContract rnew rsrc => rw [T_C20_ring_contract]; exact not_iff_bnot (by simp [pre])
+  | cylinderFill nseg => rw [T_C20_cylinder_fill]; exact not_iff_bnot (by simp [pre])
+  | loftedShape n1 n2 mids => rw [T_C20_lofted_shape]; exact not_iff_bnot (by simp [pre])
+  | stackSlice axis idx n0 n1 n2 =>
+      simp only [wf, Bool.and_eq_true, decide_eq_true_eq] at hwf
+      rw [T_C20_stack_slice tol axis idx n0 n1 n2 hwf.1 hwf.2]
+      exact not_iff_bnot (by simp [pre, inRange, and_assoc])
+
+example : wf (.stackSlice 1 2 2 3 4) = true ∧ wf (.projectAddLabel [0] [1, 2]) = true := by decide
+
+/-! ### the probe table: outcomes of the real implementation, regenerated from the source on every run -/
+
+abbrev Probe := String × List (Int × Nat) × List String × String
+
+def probeCall (p : Probe) : Option Call :=
+  callOf p.1 (p.2.1.map (fun q => mkRat q.1 q.2)) p.2.2.1
+
+/-- does the outcome recorded for the implementation agree with the model's guard? (`*`: any exception) -/
+def outMatches (o : Out) (s : String) : Bool :=
+  match o with
+  | .accept => s == "accepted"
+  | .reject c => if c == "*" then s != "accepted" else s == c
+
+/-- the probe is a well-formed call of the catalogue, the model's guard reproduces the recorded outcome, and the
+    recorded outcome is a rejection exactly when the documented precondition is violated -/
+def probeOk (tol : Rat) (p : Probe) : Bool :=
+  match probeCall p with
+  | some c => wf c && outMatches (run tol c) p.2.2.2 && ((p.2.2.2 != "accepted") == !(pre tol c))
+  | none => false
+
+def probeChunks : List (List Probe) :=
+  [CBV.Gen.c20Probes0, CBV.Gen.c20Probes1, CBV.Gen.c20Probes2, CBV.Gen.c20Probes3, CBV.Gen.c20Probes4,
+   CBV.Gen.c20Probes5, CBV.Gen.c20Probes6, CBV.Gen.c20Probes7, CBV.Gen.c20Probes8, CBV.Gen.c20Probes9]
+
+/-- On every probe of the generated table (both sides of every boundary, executed against the current source by
+    the translator): the implementation rejected the call iff the documented precondition is violated, and the
+    model's guard gives the same outcome (same exception class). -/
+theorem T_C20_probe_table : ∀ ch ∈ probeChunks, ∀ p ∈ ch, probeOk tolGen p = true := by
+  decide +kernel
+
+/-- the table is not empty and the tolerance read from the source is positive -/
+theorem T_C20_probe_table_nonempty : 400 ≤ (probeChunks.map List.length).sum ∧ 0 < tolGen := by
+  decide +kernel
+
+/-! ### clamps on the optimiser's grid: all histories -/
+
+/-- a clamp whose position matches no vertex (within `tol`) is rejected — and only such a clamp gets
+    `NoJunctionError` -/
+theorem T_C20_clamp_no_vertex (tol : Rat) (pts : List V3) (st : List Nat) (pos : V3) :
+    (addClamp tol pts st pos).1 = .reject "NoJunctionError" ↔ ∀ p ∈ pts, near tol p pos = false := by
+  rw [← firstNear_none_iff tol pos pts 0]
+  unfold addClamp
+  cases h : firstNear tol pos pts 0 with
+  | none => simp
+  | some i => by_cases hc : i ∈ st <;> simp [hc]
+
+/-- a clamp is accepted iff its position matches a vertex that has no clamp yet -/
+theorem T_C20_clamp_accept_iff (tol : Rat) (pts : List V3) (st : List Nat) (pos : V3) :
+    (addClamp tol pts st pos).1 = .accept ↔ ∃ i, firstNear tol pos pts 0 = some i ∧ i ∉ st := by
+  unfold addClamp
+  cases h : firstNear tol pos pts 0 with
+  | none => simp
+  | some i => by_cases hc : i ∈ st <;> simp [hc]
+
+/-- **a second clamp on one vertex is rejected**: after an accepted clamp, every clamp whose position matches the
+    same vertex raises `ClampExistsError`, whatever the state before -/
+theorem T_C20_second_clamp (tol : Rat) (pts : List V3) (st : List Nat) (pos pos' : V3)
+    (hacc : (addClamp tol pts st pos).1 = .accept)
+    (hsame : firstNear tol pos' pts 0 = firstNear tol pos pts 0) :
+    (addClamp tol pts (addClamp tol pts st pos).2 pos').1 = .reject "ClampExistsError" := by
+  obtain ⟨i, hi, hni⟩ := (T_C20_clamp_accept_iff tol pts st pos).mp hacc
+  have hst : (addClamp tol pts st pos).2 = i :: st := by
+    unfold addClamp
+    simp [hi, hni]
+  rw [hst]
+  unfold addClamp
+  rw [hsame, hi]
+  simp
+
+example : (addClamp (1 / 10000000) [⟨0, 0, 0⟩, ⟨1, 0, 0⟩] [] ⟨1, 0, 0⟩).1 = .accept ∧
+    firstNear (1 / 10000000) ⟨1, 0, 1 / 20000000⟩ [⟨0, 0, 0⟩, ⟨1, 0, 0⟩] 0
+      = firstNear (1 / 10000000) ⟨1, 0, 0⟩ [⟨0, 0, 0⟩, ⟨1, 0, 0⟩] 0 := by decide +kernel
+
+/-- over every history of `add_clamp` / `add_link` calls no vertex ever holds two clamps -/
+theorem T_C20_clamp_history (tol : Rat) (pts : List V3) (ops : List GridOp) (st : List Nat) (h : st.Nodup) :
+    (gridState tol pts ops st).Nodup := by
+  induction ops generalizing st with
+  | nil => simpa [gridState]
+  | cons op ops ih =>
+      cases op with
+      | clamp pos => exact ih _ (addClamp_nodup tol pts st pos h)
+      | link l f => exact ih _ h
+
+example : ([] : List Nat).Nodup := List.nodup_nil
+
+/-! ### links: leader and follower must match two different vertices -/
+
+/-- **a link is accepted iff its leader matches a vertex and its follower matches another vertex** (one that the
+    leader does not match); in particular a link whose two ends match the same vertex, or no vertex, is rejected -/
+theorem T_C20_link (tol : Rat) (pts : List V3) (leader follower : V3) :
+    addLink tol pts leader follower = .accept ↔
+      (∃ p ∈ pts, near tol leader p = true) ∧
+      (∃ q ∈ pts, near tol leader q = false ∧ near tol follower q = true) := by
+  have spec := linkScan_spec tol leader follower pts [] pts none none (by simp)
+  simp only [List.length_nil, Option.isSome_none, Bool.false_eq_true, false_or, reduceCtorEq] at spec
+  obtain ⟨a, b, c, d⟩ := spec
+  unfold addLink
+  rw [← a, ← b]
+  generalize hr : linkScan tol leader follower pts 0 none none = r at a b c d ⊢
+  obtain ⟨r1, r2⟩ := r
+  cases r1 with
+  | none => simp
+  | some l =>
+      cases r2 with
+      | none => simp
+      | some f =>
+          have hne : l ≠ f := by
+            intro hlf
+            obtain ⟨p, hp, hnp⟩ := c l rfl
+            obtain ⟨q, hq, hnq⟩ := d f rfl
+            rw [hlf, hq] at hp
+            cases hp
+            rw [hnp] at hnq
+            exact Bool.noConfusion hnq
+          simp [hne]
+
+/-! ### grading / back-porting before assembly: all histories of `Mesh` calls -/
+
+/-- **`grade()` and `backport()` are rejected (RuntimeError) exactly when the mesh is not assembled**, at any
+    point of any history of add / assemble / clear / grade / backport calls; "assembled" is the history predicate
+    `assembledSpec` above. -/
+theorem T_C20_mesh_guard (before after : List MeshOp) (op : MeshOp) (hop : op = .grade ∨ op = .backport) :
+    (meshRun {} (before ++ op :: after))[before.length]? =
+      some (if assembledSpec before.reverse then .accept else .reject "RuntimeError") := by
+  rw [meshRun_append, List.getElem?_append_right (by rw [meshRun_length]), meshRun_length,
+    Nat.sub_self, meshFold_eq_stateRev]
+  have h := (stateRev_assembled before.reverse).1
+  rcases hop with rfl | rfl
+  · simp only [meshRun, meshStep, List.getElem?_cons_zero, h]
+  · simp only [meshRun, meshStep, List.getElem?_cons_zero, h]
+    cases assembledSpec before.reverse <;> simp
+
+/-- non-vacuity: a concrete history in which `grade` is first rejected, then accepted, then rejected again -/
+example : meshRun {} [.grade, .add, .assemble, .grade, .clear, .backport] =
+    [.reject "RuntimeError", .accept, .accept, .accept, .accept, .reject "RuntimeError"] := by decide
+
+/-- all other calls of the history are always accepted -/
+theorem T_C20_mesh_others (s : MeshSt) (op : MeshOp) (h : op = .add ∨ op = .assemble ∨ op = .clear) :
+    (meshStep s op).1 = .accept := by
+  rcases h with rfl | rfl | rfl <;> rfl
+
+example : assembledSpec [MeshOp.grade, .assemble, .add].reverse.reverse = true ∧
+    assembledSpec [MeshOp.clear, .assemble, .add] = false ∧ assembledSpec [MeshOp.assemble] = false := by decide
 
 end CBV.C20
